@@ -122,19 +122,39 @@ func site(st stack, root string) (fn, rel string, line int) {
 		}
 	}
 	if len(st.Frames) > 0 {
+		// only library frames were recorded (truncated history): name the library package
 		f := st.Frames[0]
-		return f.Func, f.File, f.Line
+		pkg := f.Func
+		if k := strings.LastIndex(pkg, "/"); k >= 0 {
+			if d := strings.Index(pkg[k:], "."); d >= 0 {
+				pkg = pkg[:k+d]
+			}
+		} else if d := strings.Index(pkg, "."); d >= 0 {
+			pkg = pkg[:d]
+		}
+		return "lib:" + pkg, f.File, f.Line
 	}
 	return "?", "?", 0
 }
 
-// rowsOf: the table rows whose site is the innermost frame of the stack that matches any row
+// rowsOf: the table rows at the access site of the stack: the innermost repository frame, or — when
+// that frame is a helper without a row of its own (GenerateUniqueId reading the rng it was handed) —
+// the nearest enclosing frame of the same package that has one.
 func rowsOf(st stack, root string, tbl *Table) []int {
+	pkgDir := ""
 	for _, f := range st.Frames {
 		if !strings.HasPrefix(f.File, root+"/") {
+			if pkgDir != "" {
+				return nil
+			}
 			continue
 		}
 		rel, _ := filepath.Rel(root, f.File)
+		if pkgDir == "" {
+			pkgDir = filepath.Dir(rel)
+		} else if filepath.Dir(rel) != pkgDir {
+			return nil
+		}
 		if rows := tbl.bySite[fmt.Sprintf("%s:%d", rel, f.Line)]; len(rows) > 0 {
 			return rows
 		}
@@ -148,6 +168,7 @@ type childResult struct {
 	Seed     int64
 	Reports  []report
 	Err      string
+	Fatal    string // "fatal error: concurrent map …" + goroutine dump head
 	Wall     time.Duration
 }
 
@@ -162,7 +183,7 @@ func runChild(self string, sc scenario, seed int64, g, iters int, dir string, bu
 	cmd := exec.Command(self)
 	cmd.Env = append(os.Environ(),
 		"C11_CHILD="+sc.Name, fmt.Sprintf("C11_SEED=%d", seed), fmt.Sprintf("C11_G=%d", g), fmt.Sprintf("C11_ITERS=%d", iters),
-		"GORACE=halt_on_error=0 exitcode=0 history_size=3 log_path="+logp)
+		"GORACE=halt_on_error=0 exitcode=0 history_size=3 atexit_sleep_ms=0 log_path="+logp)
 	out := &strings.Builder{}
 	cmd.Stdout, cmd.Stderr = out, out
 	if err := cmd.Start(); err != nil {
@@ -173,7 +194,10 @@ func runChild(self string, sc scenario, seed int64, g, iters int, dir string, bu
 	go func() { done <- cmd.Wait() }()
 	select {
 	case err := <-done:
-		if err != nil {
+		if err != nil && strings.Contains(out.String(), "fatal error: concurrent map") {
+			// the runtime's own detector: an unrecoverable data race on a map
+			res.Fatal = firstLines(out.String()[strings.Index(out.String(), "fatal error: concurrent map"):], 40)
+		} else if err != nil {
 			res.Err = fmt.Sprintf("child failed: %v: %s", err, tail(out.String(), 1500))
 		} else if !strings.Contains(out.String(), "WORKLOAD-DONE") {
 			res.Err = "child ended without completing: " + tail(out.String(), 1500)
@@ -190,6 +214,14 @@ func runChild(self string, sc scenario, seed int64, g, iters int, dir string, bu
 	res.Reports = parseReports(logs)
 	res.Wall = time.Since(t0)
 	return res
+}
+
+func firstLines(s string, n int) string {
+	l := strings.SplitN(s, "\n", n+1)
+	if len(l) > n {
+		l = l[:n]
+	}
+	return strings.Join(l, "\n")
 }
 
 func tail(s string, n int) string {
@@ -214,7 +246,7 @@ func childMain(name string) {
 			if panicked {
 				fmt.Println("WORKLOAD-PANIC", msg)
 			}
-			fmt.Println("WORKLOAD-DONE", sink.Load())
+			fmt.Println("WORKLOAD-DONE", sink.Load(), "panics", panics.Load())
 			return
 		}
 	}
